@@ -3,7 +3,7 @@
    Model: coq/Model/Tsl.v (hand model of snaxc/ir/tsl/* and TiledStridedLayoutAttr.get_affine_map),
    tied to the code by the L1 correspondence in harness/props/c10.py on every run.
    `layout_okb l` = every stride static with bound > 0 (any rank, any tile depth, any steps). *)
-From Snax Require Import Base.Prelude Model.Tsl Model.TslText Proofs.TslProofs Proofs.TslProofs2 Proofs.TslProofs3 Proofs.TslTextProofs Model.TslOps Proofs.TslOpsProofs.
+From Snax Require Import Base.Prelude Model.Tsl Model.TslText Proofs.TslProofs Proofs.TslProofs2 Proofs.TslProofs3 Proofs.TslTextProofs Model.TslOps Proofs.TslOpsProofs Model.C05Copy Proofs.TslLccbPos.
 From Coq Require Import Permutation.
 
 (* 1. The affine map used for stream address generation, evaluated over the row-major index box,
@@ -67,6 +67,18 @@ Theorem C10_lccb_shared_contiguous :
   (chain (Some start) (lccb a b start) /\ Forall (shared a b) (lccb a b start)).
 Proof. exact lccb_sound. Qed.
 Print Assumptions C10_lccb_shared_contiguous.
+
+(* 5b. ... and the returned strides sit at pairwise distinct (dim, depth) positions of `a`, each holding
+       the same stride in `b` at that position (any layouts, dynamic entries included, any start):
+       the block never counts one stride twice, also when several strides have equal values. *)
+Theorem C10_lccb_positions_distinct :
+  forall a b start,
+  exists blk : list entry,
+    (lccb a b start = map snd blk \/ (blk = [] /\ lccb a b start = [(Some start, Some 1)])) /\
+    NoDup (map fst blk) /\
+    Forall (fun e => In e (entries a) /\ get_stride b (fst (fst e)) (snd (fst e)) = Some (snd e)) blk.
+Proof. exact lccb_positions_distinct. Qed.
+Print Assumptions C10_lccb_positions_distinct.
 
 (* 6. Textual form: print then parse gives an equal layout, including dynamic (`?`) bounds/steps and
       any static offset; `printable` excludes exactly: a zero step/bound (printed as `?`) and a dynamic
